@@ -160,7 +160,7 @@ func Build(base string, sim *Sim) (*Repo, error) {
 				return fail(err)
 			}
 		}
-		if _, err := r.git(env, "commit", "-q", "--allow-empty", "--no-verify", "-m", c.Commit.Subject); err != nil {
+		if _, err := r.git(env, "commit", "-q", "--allow-empty", "--allow-empty-message", "--no-verify", "-m", c.Commit.Subject); err != nil {
 			return fail(err)
 		}
 		full, err := r.git(nil, "rev-parse", "HEAD")
